@@ -345,7 +345,7 @@ func c19Gen(r *Rng, tier string, emit func(string)) {
 				}
 				name := "create"
 				key := typ + "-" + seed
-				if typ != "collection" && unloadedSeeds[key] && label != "-" && !(enc == 1 && (temp == 1 || pw == 0)) && !(enc == 0 && pw != 0) {
+				if typ != "collection" && unloadedSeeds[key] && label != "-" && !(enc == 1 && (temp == 1 || pw == 0)) {
 					dup := false
 					for _, w := range mem {
 						if w.typ+"-"+w.seed == key {
@@ -359,7 +359,7 @@ func c19Gen(r *Rng, tier string, emit func(string)) {
 				}
 				emit(fmt.Sprintf("%s %s %s %s %s %d %d %d %d", name, id, typ, seed, label, r.Intn(4), enc, pw, temp))
 				// bookkeeping for the generator only (the model does its own)
-				ok := label != "-" && !(enc == 1 && temp == 1) && !(enc == 1 && pw == 0) && !(enc == 0 && pw != 0) && mem[id] == nil
+				ok := label != "-" && !(enc == 1 && temp == 1) && !(enc == 1 && pw == 0) && mem[id] == nil
 				if ok && typ != "collection" {
 					for _, w := range mem {
 						if w.typ+"-"+w.seed == key {
